@@ -2,9 +2,9 @@
 """Regenerate MANIFEST.json from checks.json + manifest_texts.json + properties.jsonl."""
 import json, os
 V = os.path.dirname(os.path.dirname(os.path.abspath(__file__)))
-conf = json.load(open(os.path.join(V, 'checks.json')))
+conf = {"checks": {fn[:-5]: json.load(open(os.path.join(V, 'checks', fn))) for fn in sorted(os.listdir(os.path.join(V, 'checks'))) if fn.endswith('.json')}}
 props = [json.loads(l) for l in open(os.path.join(V, 'properties.jsonl'))]
-texts = json.load(open(os.path.join(V, 'manifest_texts.json')))
+texts = {k: v['manifest'] for k, v in conf['checks'].items()}
 na = json.load(open(os.path.join(V, 'not_applicable.json'))) if os.path.exists(os.path.join(V, 'not_applicable.json')) else {}
 claimed = sorted(conf['checks'])
 man = {
